@@ -59,7 +59,27 @@ ExprSeqs == UNION {[1..k -> ExprToks] : k \in 1..(IF Tier = "quick" THEN 2 ELSE 
 ExprContexts == {"attr-braces", "attr-plain", "if-test", "loop-while", "loop-count", "var-value", "text", "for-data", "reuse-attr"}
 ExprLexCases == {[fam |-> "exprlex", toks |-> s, ctx |-> x, allowed |-> {"ok", "err"}] : s \in ExprSeqs, x \in ExprContexts}
 
-Cases == CASE Family = "depth" -> DepthCases [] Family = "lex" -> LexCases [] Family = "exprlex" -> ExprLexCases [] OTHER -> {}
+\* every built-in function and operator applied to extreme numbers (integer and float
+\* boundaries, infinities through overflow, tiny values, zero divisors), in the places a
+\* number is turned into a count, an index or a length
+Extremes == {"0", "-0", "1e39", "-1e39", "2147483647", "2147483648", "-2147483648", "-2147483649", "4294967296",
+             "18446744073709551616", "1e-46", "16777217", "0.5", "-1", "1e39 - 1e39", "1/0", "0/0"}
+Extremes2 == IF Tier = "quick" THEN {"0", "-1", "1e39", "2147483647", "2147483648", "-2147483649", "1e-46", "0/0", "0.5"} ELSE Extremes
+Fns1 == {"abs", "ceil", "floor", "fract", "sign", "sqrt", "log", "exp", "sin", "cos", "tan", "asin", "acos", "atan", "not",
+         "head", "tail", "count", "empty", "sum", "product", "mean", "min", "max"}
+Fns2 == {"divmod", "pow", "randint", "eq", "lt", "and", "swap", "r2p", "p2r", "select", "scalev", "in", "min", "addv"}
+Fns3 == {"clamp", "mix", "if", "select"}
+ExprNumCases ==
+    {[fam |-> "exprnum", fn |-> f, args |-> <<x>>, ctx |-> "attr-braces", allowed |-> {"ok", "err"}] : f \in Fns1, x \in Extremes}
+    \cup {[fam |-> "exprnum", fn |-> f, args |-> <<x, y>>, ctx |-> "attr-braces", allowed |-> {"ok", "err"}] :
+              f \in Fns2 \cup {"+", "-", "*", "/", "%"}, x \in Extremes2, y \in Extremes2}
+    \cup {[fam |-> "exprnum", fn |-> f, args |-> <<x, y, z>>, ctx |-> "attr-braces", allowed |-> {"ok", "err"}] :
+              f \in Fns3, x \in {"1e39", "-1", "0/0"}, y \in {"0", "2147483648", "-1e39"}, z \in {"1e39", "-2147483649", "0.5"}}
+    \* numbers that become counts, sizes, indices
+    \cup {[fam |-> "exprnum", fn |-> "-", args |-> <<x>>, ctx |-> cx, allowed |-> {"ok", "err"}] :
+              x \in Extremes, cx \in {"loop-count", "loop-start-step", "geometry", "for-data", "repeat-text", "config-limit", "font-size", "seed"}}
+
+Cases == CASE Family = "exprnum" -> ExprNumCases [] Family = "depth" -> DepthCases [] Family = "lex" -> LexCases [] Family = "exprlex" -> ExprLexCases [] OTHER -> {}
 Init == c \in Cases
 Next == UNCHANGED c
 Spec == Init /\ [][Next]_c
